@@ -207,6 +207,9 @@ def pureOp (w : List String) : Option String :=
   | ["expect", r, t, obs] => do
       let st ← decState r t; let obs ← decRows obs
       pure (encInts (expect st obs))
+  | ["expectpoly", r, t, p] => do
+      let st ← decState r t; let p ← decPoly p
+      pure (encCx (expectPoly st p))
   | ["projtrace", r, t, obs] => do
       let st ← decState r t; let obs ← decRows obs
       pure (ex (fun (x : State × Dy) => encState x.1 ++ " " ++ encDy x.2) (projTrace st obs ⟨false, 0⟩))
